@@ -8,7 +8,7 @@
 (*   c  = [x, y, win, order, mode, N]       (integer records, window id)   *)
 (*   ev = [kind ("full" | "single"), L, D, c2,                             *)
 (*         q |-> <<MXX, MYY, mu_r, mu_i/sin w, M2>> in Q 2^16,             *)
-(*         qS12, qS2 (window sums, exact integers), K, navg, nD]           *)
+(*         m2scale (Q-scale of q[5]), S12, S2 (window sums), K, navg]      *)
 (***************************************************************************)
 EXTENDS KernelOps, Json, IOUtils
 
@@ -23,10 +23,11 @@ Q16 == 65536
 Init == tid \in 1..Len(Traces) /\ l = 1
 
 (* |q/2^16 - num/den| <= 2/2^16, product free; num may be negative *)
-NearPos(q, num, den) ==
-    /\ (q - 2 <= 0 \/ CmpFrac(q - 2, Q16, num, den) <= 0)
-    /\ q + 2 >= 0 /\ CmpFrac(num, den, q + 2, Q16) <= 0
-Near(q, num, den) == IF num >= 0 THEN NearPos(q, num, den) ELSE NearPos(-q, -num, den)
+NearPosQ(q, Qs, num, den) ==
+    /\ (q - 2 <= 0 \/ CmpFrac(q - 2, Qs, num, den) <= 0)
+    /\ q + 2 >= 0 /\ CmpFrac(num, den, q + 2, Qs) <= 0
+NearQ(q, Qs, num, den) == IF num >= 0 THEN NearPosQ(q, Qs, num, den) ELSE NearPosQ(-q, Qs, -num, den)
+Near(q, num, den) == NearQ(q, Q16, num, den)
 
 Bin ==
     /\ l <= Len(T.ev)
@@ -46,7 +47,7 @@ Bin ==
              /\ Check("C05:YY_is_reference_estimate", Near(e.q[2], st.yy, K * s2))
              /\ Check("C05:XY_real_is_reference_estimate", Near(e.q[3], st.xy[1], 2 * K * s2))
              /\ Check("C05:XY_imag_is_reference_estimate", Near(e.q[4], st.xy[2], K * s2))
-             /\ Check("C05:M2_is_reference_scatter", ~st.m2ok \/ Near(e.q[5], st.m2, K * K * s2 * s2))
+             /\ Check("C05:M2_is_reference_scatter", ~st.m2ok \/ NearQ(e.q[5], e.m2scale, st.m2, K * K * s2 * s2))   \* the scatter is logged with its own scale (it is quartic)
     /\ l' = l + 1 /\ UNCHANGED tid
 
 Next == Bin
